@@ -22,6 +22,9 @@ import (
 type ProtoCase struct {
 	Cfg   ProtoCfg     `json:"cfg"`
 	Conns []connScript `json:"conns"`
+	// EnumDrop (C12): after the scripts, this command is cut at EVERY byte offset, each time on a fresh connection
+	// that is then closed by the client
+	EnumDrop *Cmd `json:"enumdrop,omitempty"`
 }
 
 type protoOpts struct {
@@ -95,6 +98,25 @@ func runProto(pc *ProtoCase, o protoOpts) (labels map[string]bool, excluded map[
 	lines := theHub.take()
 	if pl := panicLines(lines); len(pl) > 0 {
 		return labels, excluded, fmt.Errorf("the server recovered from a panic while serving: %s", pl[0])
+	}
+	if pc.EnumDrop != nil {
+		b := pc.EnumDrop.render()
+		for cut := 0; cut <= len(b); cut++ {
+			c := srv.connect(fmt.Sprintf("drop%d", cut))
+			c.Feed(b[:cut])
+			if _, e := c.WaitIdle(idleNet); e != nil {
+				return labels, excluded, fmt.Errorf("command cut at byte %d of %d (%s): %v", cut, len(b), describe(pc.EnumDrop), e)
+			}
+			c.CloseInput()
+			if e := srv.waitConns(idleNet); e != nil {
+				return labels, excluded, fmt.Errorf("command cut at byte %d of %d (%s): %v", cut, len(b), describe(pc.EnumDrop), e)
+			}
+			c.TakeOutput()
+		}
+		labels["drop_enumerated"] = true
+		if pl := panicLines(theHub.take()); len(pl) > 0 {
+			return labels, excluded, fmt.Errorf("the server recovered from a panic while a command was cut off: %s", pl[0])
+		}
 	}
 	if o.counters {
 		srv.hstore.VerifFlush(true)
@@ -536,6 +558,15 @@ var c12Counters = &protoCheck{
 		n := rapid.SampledFrom([]int{1, 1, 2, 3, 8}).Draw(t, "nconns")
 		for i := 0; i < n; i++ {
 			pc.Conns = append(pc.Conns, genScript(t, &pc.Cfg, fmt.Sprintf("c%d-", i), true, 16, true))
+		}
+		if rapid.IntRange(0, 2).Draw(t, "enumdrop") == 0 {
+			dc := genCmd(t, &pc.Cfg, "e-", false)
+			if isStorage(dc.Verb) || dc.Verb == "get" || dc.Verb == "gets" || dc.Verb == "incr" || dc.Verb == "delete" {
+				if dc.V.Size > 600 {
+					dc.V.Size = 600
+				}
+				pc.EnumDrop = &dc
+			}
 		}
 		return pc
 	},
